@@ -70,6 +70,11 @@ typedef struct {
 
   // How deeply nested in #include directives this file is
   int include_depth;
+
+  // Where #include_next in this file continues: the index after the
+  // include path in which the file was found (0 if it was not found
+  // through the search path)
+  int include_next_idx;
 } File;
 
 // Token type
